@@ -3,6 +3,7 @@ package main
 import (
 	"bytes"
 	"fmt"
+	"gopkg.in/yaml.v3"
 	"math/rand"
 	"os/exec"
 	"strings"
@@ -13,9 +14,9 @@ import (
 
 type c14Stats struct {
 	cases, splits, pairs, dpkgChecked int
-	parsed, verbatim                 int
-	distinct                         map[string]struct{}
-	samples                          []string
+	parsed, verbatim                  int
+	distinct                          map[string]struct{}
+	samples                           []string
 }
 
 var preIdents = []string{"rc1", "beta", "alpha-2", "0", "7", "x-y", "-", "0a", "rc", "1"}
@@ -147,6 +148,20 @@ func cmdC14(tier string, seed int64, out, statsOut, replay string) {
 		info := nfpm.WithDefaults(&nfpm.Info{Version: v, Prerelease: pre, VersionMetadata: meta, VersionSchema: schema})
 		w.line("vsplit %s %s %s %s %s %s %s %s", id, xs(schema), xs(v), xs(pre), xs(meta), xs(info.Version), xs(info.Prerelease), xs(info.VersionMetadata))
 		writeDesc(id, map[string]string{"kind": "split", "schema": schema, "version": v, "prerelease": pre, "metadata": meta})
+		// the same through the front door: a YAML document, Parse, Get, WithDefaults (what `nfpm package` does);
+		// reported as a case of its own when the document parses and the outcome differs from the direct one
+		if doc, err := yaml.Marshal(map[string]string{"name": "p", "arch": "amd64", "version": v, "prerelease": pre, "version_metadata": meta, "version_schema": schema}); err == nil {
+			if cfg, err := nfpm.ParseWithEnvMapping(bytes.NewReader(doc), func(string) string { return "" }); err == nil {
+				if got, err := cfg.Get("deb"); err == nil {
+					i2 := nfpm.WithDefaults(got)
+					if i2.Version != info.Version || i2.Prerelease != info.Prerelease || i2.VersionMetadata != info.VersionMetadata {
+						w.line("vsplit %s %s %s %s %s %s %s %s", id+"-via-yaml", xs(schema), xs(v), xs(pre), xs(meta), xs(i2.Version), xs(i2.Prerelease), xs(i2.VersionMetadata))
+						writeDesc(id+"-via-yaml", map[string]string{"kind": "split", "schema": schema, "version": v, "prerelease": pre, "metadata": meta, "via": "yaml"})
+						st.cases++
+					}
+				}
+			}
+		}
 		st.splits++
 		st.cases++
 		if info.Version != v || v == "" {
